@@ -183,6 +183,7 @@ pub fn gen_meta(r: &mut Rng, kind: MetaKind) -> MetaVal {
             version: gen_string(r),
             sha: gen_string(r),
         },
+        MetaKind::Loose => MetaVal::Loose { version: gen_string(r) },
     }
 }
 
@@ -378,6 +379,13 @@ fn gen_specdir(r: &mut Rng, sw: &Swarm) -> Vec<FileSpec> {
 fn layer_names(r: &mut Rng, n: usize) -> Vec<String> {
     const POOL: [&str; 10] = ["a", "b-1", "layer_x", "z9", "node", "deps", "x_y-z", "0", "tool", "cache-me"];
     let mut names: Vec<String> = Vec::new();
+    if n >= 2 && r.chance(1, 3) {
+        // a dotted name next to a layer named like its stem (names are arbitrary strings)
+        let (stem, dotted) = *r.pick(&[("py3", "py3.11"), ("a", "a.b"), ("node", "node.v2.lts"), ("x-1", "x-1.0")]);
+        names.push(stem.to_string());
+        names.push(dotted.to_string());
+        r.shuffle(&mut names);
+    }
     while names.len() < n {
         let cand = if r.chance(1, 4) {
             let len = 1 + r.usize(12);
@@ -413,6 +421,9 @@ impl Gen<'_> {
         let w = [sw.weights[K_CACHED].max(1), sw.weights[K_UNCACHED], sw.weights[K_HANDLE]];
         match r.weighted(&w) {
             0 => {
+                // the struct API is also exercised with a metadata type that is narrower than
+                // what may be on disk
+                let kind = if r.chance(1, 4) { MetaKind::Loose } else { kind };
                 let enc_restored = *r.pick(&[Enc::Bare, Enc::Res, Enc::Tuple, Enc::ResTuple]);
                 let enc_invalid = *r.pick(&[Enc::Bare, Enc::Res, Enc::Tuple, Enc::ResTuple]);
                 let restored = if deleting {
@@ -460,6 +471,7 @@ impl Gen<'_> {
                 }
             }
             _ => {
+                let kind = if r.chance(1, 5) { MetaKind::Loose } else { kind };
                 let strategy = if deleting {
                     Strategy::Recreate
                 } else {
